@@ -33,7 +33,7 @@ ALL_INV = [i for p in MC_INV.values() for i in p if i not in ("Terminates", "Tem
 
 CLAUSE = {
     "C01": {"final_value_differs_from_sequential", "requested_output_missing", "DeliveredAll", "P_fetched",
-            "P_fetchQ_missing"},
+            "P_fetchQ_missing", "requested_outputs_never_returned"},
     "C02": {"assign_task_not_computable", "assign_worker_busy", "assign_gpu", "assign_prep_not_exact",
             "assign_publish_set_differs", "dispatched_twice", "dispatched_to_busy_worker", "dispatched_without_gpu",
             "input_not_produced", "input_neither_present_nor_commanded", "ran_without_input", "DispatchOnce",
@@ -136,7 +136,7 @@ def run_engine(ctx: Ctx) -> dict:
         return json.loads(cf.read_text())
     t0 = time.time()
     insts = quick_instances() if ctx.quick else thorough_instances()
-    n_per = 120 if ctx.quick else 150
+    n_per = 60 if ctx.quick else 150
     hashseeds = [0, 1] if ctx.quick else [0, 1, 2]
     mc_workers = 2
     res: dict = {"mc": [], "traces": [], "instances": [i.name for i in insts]}
@@ -151,7 +151,7 @@ def run_engine(ctx: Ctx) -> dict:
         inst, hs, none = args[:3]
         exhaustive = len(args) > 3 and args[3]
         seed0 = ctx.seed * 100000 + hs * 1000
-        out, meta = _record(scratch, inst, seed0, (-600 if ctx.quick else -5000) if exhaustive else n_per, hs, ("" if not exhaustive else "") or none,
+        out, meta = _record(scratch, inst, seed0, (-400 if ctx.quick else -5000) if exhaustive else n_per, hs, ("" if not exhaustive else "") or none,
                             tag="all" if exhaustive else "")
         traces = json.loads(out.read_text())
         verdicts = _validate(scratch, inst, out, meta["comp_of"], False, 1200)
@@ -183,6 +183,10 @@ def run_engine(ctx: Ctx) -> dict:
     for nm, none in [("single_1x1_sink", "a"), ("chain2_2x1_all", "a")]:
         if nm in by_name:
             jobs.append((by_name[nm], 0, none))
+    # values that are falsy but not None (0, "", False, [], ...) must be delivered like any other
+    for nm, falsy in [("single_1x1_sink", "~a"), ("chain2_2x1_all", "~a,~b"), ("multiout_2x1_sinks", "~g,~u")]:
+        if nm in by_name:
+            jobs.append((by_name[nm], 0, falsy))
     with ThreadPoolExecutor(max_workers=JVM_SLOTS + 1) as tp:
         res["traces"] = list(tp.map(job_tr, jobs))
     ctx.log(f"cascade engine: {sum(t['n'] for t in res['traces'])} executions recorded and validated in {time.time()-t1:.0f}s")
@@ -254,7 +258,7 @@ def report(ctx: Ctx, pid: str) -> None:
             if mine:
                 names = sorted({n for _, n in mine})
                 key = "trace:" + "+".join(names)
-                if t["none_tasks"] and set(names) <= NONE_VALUED_EXPECTED.get(pid, set()):
+                if t["none_tasks"] and "~" not in t["none_tasks"] and set(names) <= NONE_VALUED_EXPECTED.get(pid, set()):
                     # the probe for a requested output whose value is None fails in exactly the recorded way
                     key = "none_valued_requested_output"
                 ctx.violate(key, f"execution of the real controller on {t['instance']} (seed {b['seed']}, hashseed "
@@ -276,7 +280,7 @@ def report(ctx: Ctx, pid: str) -> None:
 
 # known finding (DESIGN.md section 6): `None` doubles as "not fetched yet" in State.outputs
 NONE_VALUED_EXPECTED = {
-    "C01": {"P_fetched", "DeliveredAll"},
+    "C01": {"P_fetched", "DeliveredAll", "requested_outputs_never_returned"},
     "C03": {"event_deadlock", "plan_pc", "flush_pc", "assign_pc", "recv_pc", "endwait_pc", "returned_before_spec_done"},
 }
 MC_NAMES = set(ALL_INV) | {"Terminates", "Init"}
